@@ -103,6 +103,38 @@ func c03If(c *Ctx, pp, tag string) {
 		}
 	})
 	r.Ob("IF-FIRST", tag+".RunIfElseStmt stops after the first branch that ran", t.Pos(branchBody.Pos()), len(after) == 0, fmt.Sprintf("reachable after a branch body: %v — exactly one branch of an if/elif/else chain may run", after))
+	// a truthy condition ends the chain, whether or not its block has statements: from the truthy edge no
+	// further condition and no else body is reachable
+	{
+		var truthy []*ssa.BasicBlock
+		allInstrs(f, func(in ssa.Instruction) {
+			iff, ok := in.(*ssa.If)
+			if !ok {
+				return
+			}
+			if call, ok := iff.Cond.(*ssa.Call); ok && call.Call.StaticCallee() == condTrue {
+				truthy = append(truthy, iff.Block().Succs[0])
+			}
+		})
+		var reach []string
+		for _, tb := range truthy {
+			if len(tb.Instrs) == 0 {
+				continue
+			}
+			first := tb.Instrs[0]
+			allInstrs(f, func(in ssa.Instruction) {
+				call, ok := in.(*ssa.Call)
+				if !ok || !(evals[call.Call.StaticCallee()] || call.Call.StaticCallee() == runStmts) || call == branchBody {
+					return
+				}
+				if in == first || reachableFrom(first, call) {
+					reach = append(reach, fmt.Sprintf("%s(%s) at %s", call.Call.StaticCallee().Name(), path(call.Call.Args[1]), t.Pos(call.Pos())))
+				}
+			})
+		}
+		r.Ob("IF-FIRST", tag+".RunIfElseStmt ends the chain at the first truthy condition", t.Pos(f.Pos()), len(truthy) == 1 && len(reach) == 0,
+			fmt.Sprintf("%d truthiness test(s); evaluations reachable from the truthy edge besides that branch's own body: %v — a truthy branch with an empty block must not fall through to a later elif or the else", len(truthy), reach))
+	}
 	// the condition evaluated belongs to the same list element as the body
 	okSame := false
 	allInstrs(f, func(in ssa.Instruction) {
